@@ -157,7 +157,11 @@ func genC15(t *rapid.T, tier string) (*World, any) {
 		{"crs/nested", ""}, {"", "crs/nested/rules"}, {"crs", "nested"}, {"outside", "../crs"}, {"", "crs/regex-assembly/include"},
 		{"crs/rules", ""}, {"", ""}, // without -d the working directory itself is the root: nothing to find there
 	}
-	n := drawInt(t, 1, 4, "nsteps")
+	maxSteps := 4
+	if tier == "thorough" {
+		maxSteps = 8
+	}
+	n := drawInt(t, 1, maxSteps, "nsteps")
 	for i := 0; i < n; i++ {
 		c := pick(t, cmds, "cmd")
 		pl := pick(t, places, "place")
